@@ -13,7 +13,7 @@ META = dict(
     technique="TLA+ transcription of the two eol converters and the seven (reader, writer) settings, model-checked by "
               "TLC over all contents up to the tier's length; TLC case table replayed through the real filter stacks "
               "(and fresh checkouts under a rules file); recorded bytes judged by the same TLA+ laws",
-    level_text="Exhaustive over {CR, LF, NUL, a}* up to length 6 (quick) / 7 (thorough) for all seven settings: TLC "
+    level_text="Exhaustive over {CR, LF, NUL, a}* up to length 5 (quick) / 7 (thorough) for all seven settings: TLC "
                "proves on the transcription that the round-trip law fails exactly on the loss class (CR directly "
                "before CRLF, CRLF repository form, LF working form) and holds everywhere else, every case is executed "
                "on the real filter stack, and TLC evaluates the laws on the recorded bytes. The converters are "
@@ -150,7 +150,7 @@ def run(ctx):
     native = '"crlf"' if sys.platform == "win32" else '"lf"'
     global _NATIVE
     _NATIVE = native          # inherited by the forked replay workers
-    consts = {"MaxLen": 6 if ctx.quick else 7, "Native": native}
+    consts = {"MaxLen": 5 if ctx.quick else 7, "Native": native}
     small = {"MaxLen": 3, "Native": native}
     tree_len = 4 if ctx.quick else 5
     # the rules file every tree of this process (and of the forked workers) resolves `eol` from
